@@ -144,3 +144,42 @@ func VF_C17_stackitem_shared_reference_limit() {
 		vfAssert(len(got.(*Array).value) == n, "same-element-count")
 	}
 }
+
+//vf:tier quick
+//vf:bigint theory
+//vf:unwind 120
+//vf:bound a reusable SerializationContext used for 2..3 consecutive Serialize calls over items that share a compound (an array with 1..2 symbolic byte elements, alone / nested in another array / nested at another depth, optionally appended to between calls): every call's output equals the output of a fresh context and decodes back to the item
+func VF_C17_reused_serialization_context() {
+	inner := NewArray([]Item{NewByteArray(vfBytes("e0", 1))})
+	if vfBool("two-elements") {
+		inner.Append(NewByteArray(vfBytes("e1", 1)))
+	}
+	shapes := func(k int) Item {
+		switch k {
+		case 0:
+			return inner
+		case 1:
+			return NewArray([]Item{NewBool(true), inner})
+		case 2:
+			return NewArray([]Item{inner, NewArray([]Item{inner})})
+		}
+		return NewStruct([]Item{NewBigInteger(big.NewInt(5)), inner})
+	}
+	sc := NewSerializationContext()
+	n := 2 + vfChoose("third-call", 0, 1)
+	for i := 0; i < n; i++ {
+		it := shapes(vfChoose("shape", 0, 3))
+		if i > 0 && vfBool("mutate-between-calls") {
+			inner.Append(NewByteArray(vfBytes("added", 1)))
+		}
+		got, err := sc.Serialize(it, false)
+		want, werr := Serialize(it)
+		vfAssert((err == nil) == (werr == nil), "reused-context:error-as-fresh-context")
+		if err != nil || werr != nil {
+			continue
+		}
+		vfAssert(string(got) == string(want), "reused-context:bytes-as-fresh-context")
+		back, derr := Deserialize(got)
+		vfAssert(derr == nil && vhSameItem(back, it, 4), "reused-context:decodes-back")
+	}
+}
